@@ -438,7 +438,7 @@ func (sb *sandbox) do(rq fsReq) (line string, goOut string) {
 	if panicked {
 		return line, "panic"
 	}
-	if len(post) > 400 {
+	if len(post) > 400 && len(post) > 2*len(pre)+10 {
 		// a request of this universe can at most double a tree of a dozen entries: the handler ran away
 		// (e.g. a COPY into its own subtree that walks what it creates until the path is too long)
 		return line, fmt.Sprintf("runaway-tree %d", len(post))
@@ -822,6 +822,59 @@ func famFsReq(o *Out, r *RNG, thorough bool) {
 			if sxTree(sb.listing()) != base2 {
 				sb.reset(tree2)
 			}
+		}
+	}
+	// files of the tree realised as symbolic links to another file of the tree (to the model: two files with the same
+	// content): what GET, HEAD and PROPFIND announce for the link is what a conditional DELETE of the link is judged by
+	treeL := []fsEntry{{path: "/", dir: true}, {path: "/t.txt", content: "target content"}, {path: "/d", dir: true}}
+	mkLinks := func() {
+		sb.reset(treeL)
+		os.Symlink("t.txt", filepath.Join(sb.root, "l.txt"))
+		os.Symlink("../t.txt", filepath.Join(sb.root, "d", "l2"))
+	}
+	for _, p := range []string{"/l.txt", "/d/l2"} {
+		mkLinks()
+		for _, rq := range []fsReq{{method: "GET", path: p, fault: -1}, {method: "HEAD", path: p, fault: -1}, {method: "PROPFIND", path: p, depth: "0", pf: 'a', ctype: "application/xml", fault: -1},
+			{method: "PROPFIND", path: "/", depth: "infinity", pf: 'a', ctype: "application/xml", fault: -1}} {
+			line, out := sb.do(rq)
+			o.Emit("fs.req", line, out)
+		}
+		for _, c := range [][2]byte{{'u', 'u'}, {'c', 'u'}, {'o', 'u'}, {'s', 'u'}, {'u', 'c'}, {'u', 'o'}, {'u', 's'}, {'c', 'o'}} {
+			mkLinks()
+			line, out := sb.do(fsReq{method: "DELETE", path: p, ifm: c[0], ifnm: c[1], fault: -1})
+			o.Emit("fs.req", line, out)
+		}
+	}
+	// a collection nested deeper than any recursion limit one might think of, with something at the bottom: listed,
+	// copied onto an existing collection and onto an existing file, moved, deleted
+	{
+		deep := []fsEntry{{path: "/", dir: true}, {path: "/dst", dir: true}, {path: "/dst/keep.txt", content: "precious"}, {path: "/note.txt", content: "n"}}
+		pth := "/src"
+		for i := 0; i < 40; i++ {
+			deep = append(deep, fsEntry{path: pth, dir: true})
+			pth += "/d"
+		}
+		deep = append(deep, fsEntry{path: pth, content: "bottom"})
+		for _, rq := range []fsReq{{method: "PROPFIND", path: "/src", depth: "infinity", pf: 'a', ctype: "application/xml", fault: -1},
+			{method: "COPY", path: "/src", dest: sp("/dst"), fault: -1}, {method: "COPY", path: "/src", dest: sp("/note.txt"), fault: -1},
+			{method: "COPY", path: "/src", dest: sp("/fresh"), fault: -1}, {method: "COPY", path: "/src", dest: sp("/dst"), ow: "F", fault: -1},
+			{method: "MOVE", path: "/src", dest: sp("/dst"), fault: -1}, {method: "MOVE", path: "/src/d/d", dest: sp("/up"), fault: -1},
+			{method: "DELETE", path: "/src", fault: -1}, {method: "GET", path: pth, fault: -1}} {
+			sb.reset(deep)
+			line, out := sb.do(rq)
+			o.Emit("fs.req", line, out)
+		}
+	}
+	// a collection with more members than any listing limit one might think of
+	{
+		big := []fsEntry{{path: "/", dir: true}, {path: "/big", dir: true}}
+		for i := 0; i < 1100; i++ {
+			big = append(big, fsEntry{path: fmt.Sprintf("/big/f%04d", i), content: "x"})
+		}
+		sb.reset(big)
+		for _, depth := range []string{"1", "infinity", ""} {
+			line, out := sb.do(fsReq{method: "PROPFIND", path: "/big", depth: depth, pf: 'n', ctype: "application/xml", fault: -1})
+			o.Emit("fs.req", line, out)
 		}
 	}
 	// aliasing: what COPY / MOVE produce must be independent of the source afterwards (and the reverse)
